@@ -8,16 +8,17 @@ namespace XzVerif.MtDec
 /-- Frame: queue, workers and coder->thr unchanged. -/
 theorem LiveInv.frameThr {s s' : State} (h : LiveInv s) (eq : s'.queue = s.queue) (ew : s'.workers = s.workers)
     (hfull : ∀ i, i < s.workers.length → (getW s i).hasOut = true → s'.thr ≠ some i → (getW s i).inFilled = (getW s i).inSize)
-    (hp4 : s.pc = .init4 → s'.pc = .init4) (hp45 : (s.pc = .init4 ∨ s.pc = .init5) → (s'.pc = .init4 ∨ s'.pc = .init5))
+    (hp4 : ∀ i, (s.pc = .init4 ∧ s.thr = some i) → (s'.pc = .init4 ∧ s'.thr = some i)) (hp45 : (s.pc = .init4 ∨ s.pc = .init5) → (s'.pc = .init4 ∨ s'.pc = .init5))
     (h10 : s'.seq = .thrInit → (s'.pc = .init3 ∨ s'.pc = .init4 ∨ s'.pc = .init5) ∨ s'.thr = none)
     (h11 : s'.seq = .thrInit → (blk s' s'.cur).kind = .thr ∨ s'.pc = .init4 ∨ s'.pc = .init5)
     (h12 : s'.seq = .blockInit → (blk s' s'.cur).kind = .thr ∨ (blk s' s'.cur).kind = .direct)
     (h13 : s'.seq = .thrRun → ∃ t, s'.thr = some t)
+    (h13a : s'.pc = .init5 → ∃ t, s'.thr = some t)
     (h14 : (s'.pc = .init1 ∨ s'.pc = .init2 ∨ s'.pc = .rowOk .canStart true ∨ s'.pc = .rowDone .canStart OK true) →
       s'.workers.length < s'.cfg.threadsMax ∨ s'.threadsFree ≠ []) : LiveInv s' := by
   have eg : ∀ j, getW s' j = getW s j := fun j => by simp [getW, ew]
   have eo : ∀ o i, Owner s' o i ↔ Owner s o i := fun o i => by simp [Owner, ew, eg]
-  refine ⟨?_, ?_, ?_, ?_, ?_, ?_, ?_, ?_, ?_, h10, h11, h12, h13, h14⟩
+  refine ⟨?_, ?_, ?_, ?_, ?_, ?_, ?_, ?_, ?_, h10, h11, h12, h13, h13a, h14⟩
   · intro o ho hf
     obtain ⟨i, hi⟩ := h.own o (eq ▸ ho) hf
     exact ⟨i, (eo o i).mpr hi⟩
@@ -25,7 +26,7 @@ theorem LiveInv.frameThr {s s' : State} (h : LiveInv s) (eq : s'.queue = s.queue
     rw [ew] at hi; rw [eg] at ho hl ⊢
     rcases h.run i hi ho hl with e | e
     · exact Or.inl e
-    · exact Or.inr (hp4 e)
+    · exact Or.inr (hp4 i e)
   · intro o ho w hw hf
     exact (eo o w).mpr (h.wrk o (eq ▸ ho) w hw hf)
   · intro hh t hq; rw [eq] at hq; exact h.tailW hh t hq
@@ -49,14 +50,15 @@ theorem LiveInv.frameThr {s s' : State} (h : LiveInv s) (eq : s'.queue = s.queue
 
 theorem LiveInv.frame {s s' : State} (h : LiveInv s) (eq : s'.queue = s.queue) (ew : s'.workers = s.workers)
     (et : s'.thr = s.thr)
-    (hp4 : s.pc = .init4 → s'.pc = .init4) (hp45 : (s.pc = .init4 ∨ s.pc = .init5) → (s'.pc = .init4 ∨ s'.pc = .init5))
+    (hp4 : ∀ i, (s.pc = .init4 ∧ s.thr = some i) → (s'.pc = .init4 ∧ s'.thr = some i)) (hp45 : (s.pc = .init4 ∨ s.pc = .init5) → (s'.pc = .init4 ∨ s'.pc = .init5))
     (h10 : s'.seq = .thrInit → (s'.pc = .init3 ∨ s'.pc = .init4 ∨ s'.pc = .init5) ∨ s'.thr = none)
     (h11 : s'.seq = .thrInit → (blk s' s'.cur).kind = .thr ∨ s'.pc = .init4 ∨ s'.pc = .init5)
     (h12 : s'.seq = .blockInit → (blk s' s'.cur).kind = .thr ∨ (blk s' s'.cur).kind = .direct)
     (h13 : s'.seq = .thrRun → ∃ t, s'.thr = some t)
+    (h13a : s'.pc = .init5 → ∃ t, s'.thr = some t)
     (h14 : (s'.pc = .init1 ∨ s'.pc = .init2 ∨ s'.pc = .rowOk .canStart true ∨ s'.pc = .rowDone .canStart OK true) →
       s'.workers.length < s'.cfg.threadsMax ∨ s'.threadsFree ≠ []) : LiveInv s' :=
-  h.frameThr eq ew (fun i hi ho ht => h.full i hi ho (et ▸ ht)) hp4 hp45 h10 h11 h12 h13 h14
+  h.frameThr eq ew (fun i hi ho ht => h.full i hi ho (et ▸ ht)) hp4 hp45 h10 h11 h12 h13 h13a h14
 
 def Label.liveSimple : Label → Bool
   | .rowIter _ | .assign | .enablePartial | .stopOne | .endSet | .endJoin | .getThread | .startThr | .tell | .rowOk | .hdrGot | .blockInit => false
@@ -70,13 +72,14 @@ theorem LiveInv.mainSimple {s s' : State} {l : Label} (h : LiveInv s) (hI : Inv 
   have l12 := h.kindInit
   have l13 := h.thrSome
   have l14 := h.canGet
+  have l13a := h.thr5
   obtain ⟨c1, c2, c3, c4, c5, c6, c6a, c6b, c7, c8, c9, c10⟩ := hI.2
   cases l <;> simp only [Label.worker?, reduceCtorEq] at hl <;> simp only [Label.liveSimple, reduceCtorEq] at hsimple <;>
     simp only [step] at hs
   all_goals (repeat' split at hs)
   all_goals first | (cases hs; done) | skip
   all_goals (cases hs)
-  all_goals (refine h.frame rfl rfl rfl ?_ ?_ ?_ ?_ ?_ ?_ ?_ <;> first
+  all_goals (refine h.frame rfl rfl rfl ?_ ?_ ?_ ?_ ?_ ?_ ?_ ?_ <;> first
     | (intros; simp_all [rowKOf, seqOfRowK, blk]; done)
     | (intro hx; simp_all [rowKOf, seqOfRowK, blk]; done))
 
@@ -89,7 +92,7 @@ theorem LiveInv.hdrGot {s s' : State} (h : LiveInv s) (hI : Inv s) (hs : step s 
   simp only [Bool.and_eq_true, decide_eq_true_eq] at hg
   obtain ⟨⟨hpc, hseq⟩, hcur⟩ := hg
   cases hk : (blk s s.cur).kind <;> simp only [hk] at hs <;> cases hs <;>
-    (refine h.frame rfl rfl rfl ?_ ?_ ?_ ?_ ?_ ?_ ?_ <;> first
+    (refine h.frame rfl rfl rfl ?_ ?_ ?_ ?_ ?_ ?_ ?_ ?_ <;> first
       | (intros; simp_all [rowKOf, seqOfRowK, blk]; done)
       | (intro hx; simp_all [rowKOf, seqOfRowK, blk]; done))
 
@@ -106,7 +109,7 @@ theorem LiveInv.blockInit {s s' : State} (h : LiveInv s) (hI : Inv s) (hs : step
     | none => rfl
     | some t => have := c6a t ht; rw [hseq] at this; simp at this
   cases hk : (blk s s.cur).kind <;> simp only [hk] at hs <;> cases hs <;>
-    (refine h.frame rfl rfl rfl ?_ ?_ ?_ ?_ ?_ ?_ ?_ <;> first
+    (refine h.frame rfl rfl rfl ?_ ?_ ?_ ?_ ?_ ?_ ?_ ?_ <;> first
       | (intros; simp_all [rowKOf, seqOfRowK, blk]; done)
       | (intro hx; simp_all [rowKOf, seqOfRowK, blk]; done))
 
@@ -116,6 +119,7 @@ theorem LiveInv.rowOk {s s' : State} (h : LiveInv s) (hI : Inv s) (hs : step s .
   have l12 := h.kindInit
   have l13 := h.thrSome
   have l14 := h.canGet
+  have l13a := h.thr5
   obtain ⟨c1, c2, c3, c4, c5, c6, c6a, c6b, c7, c8, c9, c10⟩ := hI.2
   simp only [step] at hs
   split at hs
@@ -125,20 +129,20 @@ theorem LiveInv.rowOk {s s' : State} (h : LiveInv s) (hI : Inv s) (hs : step s .
     have hseq : s.seq = .thrRun := c5 .thrRun (by rw [hpc]; rfl)
     split at hs
     · cases hs
-      refine h.frame rfl rfl rfl ?_ ?_ ?_ ?_ ?_ ?_ ?_ <;> first
+      refine h.frame rfl rfl rfl ?_ ?_ ?_ ?_ ?_ ?_ ?_ ?_ <;> first
         | (intros; simp_all [rowKOf, seqOfRowK, blk]; done)
         | (intro hx; simp_all [rowKOf, seqOfRowK, blk]; done)
     · split at hs
       · rename_i t ht
         split at hs
         · cases hs
-          refine h.frame rfl rfl rfl ?_ ?_ ?_ ?_ ?_ ?_ ?_ <;> first
+          refine h.frame rfl rfl rfl ?_ ?_ ?_ ?_ ?_ ?_ ?_ ?_ <;> first
             | (intros; simp_all [rowKOf, seqOfRowK, blk]; done)
             | (intro hx; simp_all [rowKOf, seqOfRowK, blk]; done)
         · rename_i hfl
           cases hs
           have htl : t < s.workers.length := c6 (by rw [hpc]; simp) t ht
-          refine h.frameThr rfl rfl ?_ ?_ ?_ ?_ ?_ ?_ ?_ ?_
+          refine h.frameThr rfl rfl ?_ ?_ ?_ ?_ ?_ ?_ ?_ ?_ ?_
           · intro i hi ho _
             by_cases e : s.thr = some i
             · have : i = t := by rw [ht] at e; injection e with e; exact e.symm
@@ -153,7 +157,7 @@ theorem LiveInv.rowOk {s s' : State} (h : LiveInv s) (hI : Inv s) (hs : step s .
   all_goals (repeat' split at hs)
   all_goals first | (cases hs; done) | skip
   all_goals (cases hs)
-  all_goals (refine h.frame rfl rfl rfl ?_ ?_ ?_ ?_ ?_ ?_ ?_ <;> first
+  all_goals (refine h.frame rfl rfl rfl ?_ ?_ ?_ ?_ ?_ ?_ ?_ ?_ <;> first
     | (intros; simp_all [rowKOf, seqOfRowK, blk]; done)
     | (intro hx; simp_all [rowKOf, seqOfRowK, blk]; done))
 
